@@ -221,6 +221,8 @@ def handle (st : St) (fields : List String) : St × String :=
   | ["validkey", k] => (st, s!"ok\t{validKey (decStr k)}")
   | ["s2e", s, vocab, pad, et] =>
     (st, encPy encEncoded (selfiesToEncoding (decStr s) (decVocabStoi vocab) pad.toInt! (decEncType et)))
+  | ["e2s", et, labels, rows, vocab] =>
+    (st, encPy encStr (encodingToSelfies (decIntList labels) (decIntRows rows) (decVocabItos vocab) (decEncType et)))
   | ["l2s", labels, vocab] => (st, encPy encStr (labelToSelfies (decIntList labels) (decVocabItos vocab)))
   | ["h2s", rows, vocab] => (st, encPy encStr (oneHotToSelfies (decIntRows rows) (decVocabItos vocab)))
   | "bs2f" :: vocab :: pad :: batch =>
